@@ -20,7 +20,7 @@ Local Open Scope N_scope.
    (placeholders included). The debug_assert_form! checks inside both functions never fire. *)
 Theorem form_size_write_len : forall (dbg : bool) (cx : wcx) (v : aval) (ops : list wop),
   av_write dbg cx v = Ok ops -> expr_ok v -> ops_len ops < 2 ^ 64 ->
-  av_size dbg (wc_enc cx) v = Ok (ops_len ops).
+  av_size dbg (wc_enc cx) (wc_lpv cx) v = Ok (ops_len ops).
 Proof. exact av_write_size. Qed.
 
 (* ... and those bytes are laid out as the DW_FORM chosen by `form` prescribes: decoding them under that
@@ -33,9 +33,9 @@ Theorem form_size_write_decodes : forall (dbg : bool) (cx : wcx) (v : aval) (ops
 Proof. exact av_write_decodes. Qed.
 
 Example form_size_write_ex :
-  let cx := mkWcx (mkEnc 5 false 8) false 0 0 [] [] None [] [7] [] [] in
-  av_write true cx (AvUdata 300) = Ok [WB [xac; x02]] /\ av_size true (wc_enc cx) (AvUdata 300) = Ok 2 /\
-  av_write true cx AvFlagPresent = Ok [] /\ av_size true (wc_enc cx) AvFlagPresent = Ok 0 /\
+  let cx := mkWcx (mkEnc 5 false 8) false 0 0 [] [] None [] [7] [] [] 5 in
+  av_write true cx (AvUdata 300) = Ok [WB [xac; x02]] /\ av_size true (wc_enc cx) (wc_lpv cx) (AvUdata 300) = Ok 2 /\
+  av_write true cx AvFlagPresent = Ok [] /\ av_size true (wc_enc cx) (wc_lpv cx) AvFlagPresent = Ok 0 /\
   av_write true cx (AvStringRef 0) = Ok [WB [x07; x00; x00; x00]] /\
   av_write true cx (AvUnitRef (mkEid 0 3)) = Ok [WUnitRef (mkEid 0 3) 4].
 Proof. vm_compute. repeat split; reflexivity. Qed.
@@ -47,7 +47,7 @@ Proof. vm_compute. repeat split; reflexivity. Qed.
    ends where the written bytes end, and the entries are visited in the same (pre)order. `cx` carries the
    tables calculate_offsets produced, as in Unit::write. *)
 Theorem offsets_exact : forall (dbg : bool) (cx : wcx) (root : die) (st0 st : cst) (ops : list wop),
-  calc dbg (wc_enc cx) root st0 = Ok st ->
+  calc dbg (wc_enc cx) (wc_lpv cx) root st0 = Ok st ->
   wc_codes cx = cs_codes st ->
   write_die dbg cx root (cs_off st0) = Ok ops ->
   NoDup (die_ids root) -> die_expr_ok root ->
@@ -62,7 +62,7 @@ Proof. exact offsets_exact_lemma. Qed.
    assertions the id was issued by this unit. *)
 Theorem refs_resolve : forall (dbg : bool) (cx : wcx) (root : die) (st0 st : cst) (ops : list wop)
     (pre post sec' : list byte) (f : eid -> list byte),
-  calc dbg (wc_enc cx) root st0 = Ok st ->
+  calc dbg (wc_enc cx) (wc_lpv cx) root st0 = Ok st ->
   wc_codes cx = cs_codes st ->
   write_die dbg cx root (cs_off st0) = Ok ops ->
   NoDup (die_ids root) -> die_expr_ok root ->
@@ -90,10 +90,10 @@ Definition ex_st0 : cst := mkCst 11 [0; 0; 0; 0] [] [0; 0; 0; 0].
 Definition ex_st : cst := mkCst 33 [11; 22; 25; 30] [] [1; 2; 3; 2].
 
 Example offsets_exact_ex :
-  match calc true ex_enc ex_root ex_st0 with
+  match calc true ex_enc 4 ex_root ex_st0 with
   | Ok st =>
       cs_entries st = cs_entries ex_st /\ cs_codes st = cs_codes ex_st /\ cs_off st = 33 /\
-      match write_die true (mkWcx ex_enc false 0 0 (cs_entries st) (cs_codes st) None [] [] [] []) ex_root 11 with
+      match write_die true (mkWcx ex_enc false 0 0 (cs_entries st) (cs_codes st) None [] [] [] [] 4) ex_root 11 with
       | Ok ops =>
           ops_marks 11 ops = [(0%nat, 11); (1%nat, 22); (2%nat, 25); (3%nat, 30)] /\ ops_len ops = 22 /\
           ops_unit_refs 11 ops = [(18, mkEid 0 2); (26, mkEid 0 1)]
@@ -124,7 +124,7 @@ Qed.
    form_decode) — here that half is the harness oracle (read-back through gimli::read on every case). *)
 Theorem roundtrip : forall (dbg : bool) (cx : wcx) (root : die) (st0 st : cst) (ops : list wop)
     (pre post sec' : list byte) (f : eid -> list byte) (fuel : nat) (rest : list byte),
-  calc dbg (wc_enc cx) root st0 = Ok st ->
+  calc dbg (wc_enc cx) (wc_lpv cx) root st0 = Ok st ->
   wc_codes cx = cs_codes st ->
   write_die dbg cx root (cs_off st0) = Ok ops ->
   NoDup (die_ids root) -> die_expr_ok root -> die_decodable root ->
@@ -149,9 +149,9 @@ Proof. exact roundtrip_lemma. Qed.
 (* the example tree, patched and decoded: root at 11 with DW_AT_sibling -> 33 (end), a forward reference to the
    entry at 25 and, inside it, a backward reference to the entry at 22 *)
 Example roundtrip_ex :
-  match calc true ex_enc ex_root ex_st0 with
+  match calc true ex_enc 4 ex_root ex_st0 with
   | Ok st =>
-      let cx := mkWcx ex_enc false 0 0 (cs_entries st) (cs_codes st) None [] [] [] [] in
+      let cx := mkWcx ex_enc false 0 0 (cs_entries st) (cs_codes st) None [] [] [] [] 4 in
       match write_die true cx ex_root 11 with
       | Ok ops =>
           let f := fun id => match ref_value true false 0 0 (cs_entries st) 4 id with Some b => b | None => zeros 4 end in
@@ -185,8 +185,8 @@ Theorem unit_roundtrip : forall (dbg be : bool) (uidx : nat) (u : wunit) (p : up
     tree_of (S (length ents2)) ents2 0 = Ok root /\
     let e := u_enc u in
     let pos0 := UnitWr.blen info + UnitWr.blen hdr in
-    let cx := mkWcx e be uidx (UnitWr.blen info) (cs_entries st) (cs_codes st) line lstr str rng loc in
-    calc dbg e root (mkCst pos0 (repeat 0 (length ents2)) [] (repeat 0 (length ents2))) = Ok st /\
+    let cx := mkWcx e be uidx (UnitWr.blen info) (cs_entries st) (cs_codes st) line lstr str rng loc (up_lp_version p) in
+    calc dbg e (up_lp_version p) root (mkCst pos0 (repeat 0 (length ents2)) [] (repeat 0 (length ents2))) = Ok st /\
     uo_entries out = cs_entries st /\ uo_abbrevs out = cs_abbrevs st /\ uo_unit_off out = UnitWr.blen info /\
     (NoDup (die_ids root) -> die_expr_ok root -> die_decodable root -> UnitWr.blen (uo_info out) < 2 ^ 64 ->
      forall f : eid -> list byte,
@@ -217,7 +217,7 @@ Definition ex_unit : wunit :=
   | _ => unit_new (mkEnc 5 false 8) end.
 
 Example unit_roundtrip_ex :
-  match unit_write true false 0 ex_unit (mkUparams true false (Ok 0) (Ok []) (Ok [])) [] [] [] 0 with
+  match unit_write true false 0 ex_unit (mkUparams true false 2 (Ok 0) (Ok []) (Ok [])) [] [] [] 0 with
   | Ok out =>
       uo_info out = [x12; x00; x00; x00; x05; x00; x01; x08; x00; x00; x00; x00;
                      x01; x02; x69; x00; x03; x0d; x00; x00; x00; x00] /\
@@ -316,9 +316,9 @@ Proof. exact encodable_is_ok_lemma. Qed.
 
 (* a reference to an entry outside the written tree (deleted child, reserved and never added, orphan)
    never produces output *)
-Theorem dangling_ref_is_error : forall (dbg : bool) (e : encoding) (root : die) (st0 st : cst) (be : bool)
+Theorem dangling_ref_is_error : forall (dbg : bool) (e : encoding) (lpv : N) (root : die) (st0 st : cst) (be : bool)
     (unit : nat) (unit_off w : N) (refs : list (N * eid)) (sec : list byte) (off : N) (id : eid),
-  calc dbg e root st0 = Ok st ->
+  calc dbg e lpv root st0 = Ok st ->
   (forall j y, nth_error (cs_entries st0) j = Some y -> y = 0) ->
   In (off, id) refs -> ~ In (id_idx id) (die_ids root) ->
   forall sec', patch_unit_refs dbg be unit unit_off (cs_entries st) w refs sec <> Ok sec'.
@@ -333,22 +333,53 @@ Theorem fixups_all_resolve : forall (dbg be : bool) (units : list tunit) (fx : l
 Proof. exact table_fixups_all_resolve. Qed.
 
 Example unencodable_ex :
-  let cx := mkWcx (mkEnc 4 false 4) false 0 0 [] [] None [] [] [] [] in
+  let cx := mkWcx (mkEnc 4 false 4) false 0 0 [] [] None [] [] [] [] 4 in
   av_unencodable cx (AvAddress (ASym 1 0)) = Some WInvalidAddress /\
   av_unencodable cx (AvAddress (AConst 4294967296)) = Some WValueTooLarge /\
   av_unencodable cx (AvDebugStrRefSup 4294967296) = Some WValueTooLarge /\
   av_unencodable cx AvLineProgramRef = Some WInvalidAttributeValue /\
   av_unencodable cx (AvDebugInfoRef (DSym 0)) = Some WInvalidReference /\
-  av_unencodable (mkWcx (mkEnc 2 false 3) false 0 0 [] [] None [] [] [] []) (AvDebugInfoRef (DEntry 0 (mkEid 0 1)))
+  av_unencodable (mkWcx (mkEnc 2 false 3) false 0 0 [] [] None [] [] [] [] 4) (AvDebugInfoRef (DEntry 0 (mkEid 0 1)))
     = Some WUnsupportedWordSize /\
   av_typed cx (AvUdata 5) /\ av_unencodable cx (AvUdata 5) = None.
 Proof. vm_compute. repeat split; try reflexivity. Qed.
 
-(* The property demands an error for a reference to an id that was reserved and lies beyond the entries
-   vector; the faithful model panics instead (known finding, see known_findings.txt): *)
-Example dangling_reserved_id_refuted :
-  exists entries id, unit_offset false 0 0 entries id = Panic /\ entries = [0; 12] /\ id = mkEid 0 2.
-Proof. exists [0; 12], (mkEid 0 2). vm_compute. repeat split; reflexivity. Qed.
+(* ... and (since c42c00d) the request is answered with Err(InvalidReference) — no panic — wherever the id
+   lies, including a reserved id beyond the entries vector: the first dangling reference ends the write *)
+Theorem dangling_ref_invalid_reference : forall (dbg : bool) (e : encoding) (lpv : N) (root : die) (st0 st : cst)
+    (be : bool) (unit : nat) (unit_off w : N) (r : list (N * eid)) (sec : list byte) (off : N) (id : eid),
+  calc dbg e lpv root st0 = Ok st ->
+  (forall j y, nth_error (cs_entries st0) j = Some y -> y = 0) ->
+  ~ In (id_idx id) (die_ids root) -> (dbg = true -> id_unit id = unit) ->
+  patch_unit_refs dbg be unit unit_off (cs_entries st) w ((off, id) :: r) sec = Err WInvalidReference.
+Proof. exact dangling_ref_invalid_reference_lemma. Qed.
+
+Example dangling_reserved_id_ex :
+  unit_offset true 0 0 [0; 12] (mkEid 0 2) = Ok None /\ unit_offset false 0 0 [0; 12] (mkEid 0 2) = Ok None /\
+  patch_unit_refs true false 0 0 [0; 12] 4 [(13, mkEid 0 2)] (repeat x00 20) = Err WInvalidReference.
+Proof. vm_compute. repeat split; reflexivity. Qed.
+
+(* patching the references of a unit never panics when the ids were issued by that unit (the remaining
+   exception is an id of another unit in a build with debug assertions: known finding) *)
+Theorem patch_no_panic : forall (dbg be : bool) (unit : nat) (unit_off : N) (entries : list N) (w : N)
+    (refs : list (N * eid)) (sec : list byte),
+  (forall off id, In (off, id) refs -> dbg = true -> id_unit id = unit) ->
+  (forall i x, nth_error entries i = Some x -> x <> 0 -> unit_off <= x) ->
+  patch_unit_refs dbg be unit unit_off entries w refs sec <> Panic.
+Proof. exact patch_unit_refs_no_panic_lemma. Qed.
+
+(* (since c92c4f4) a file index is written in the numbering of the unit's line program, whatever the unit's
+   own version: a reader of that program finds the file that was meant *)
+Theorem file_index_roundtrip : forall (dbg : bool) (lpv i r : N),
+  i + 1 < 2 ^ 64 -> file_raw dbg lpv (Some i) = Ok r -> file_of_raw lpv r = Some i.
+Proof. exact file_index_roundtrip_lemma. Qed.
+
+Example file_index_crossver_ex :
+  (* DWARF 5 unit, DWARF 4 line program: file 1 is written as 2 *)
+  let cx := mkWcx (mkEnc 5 false 8) false 0 0 [] [] None [] [] [] [] 4 in
+  av_write true cx (AvFileIndex (Some 1)) = Ok [WB [x02]] /\ av_size true (wc_enc cx) (wc_lpv cx) (AvFileIndex (Some 1)) = Ok 1 /\
+  file_of_raw 4 2 = Some 1.
+Proof. vm_compute. repeat split; reflexivity. Qed.
 
 (* ---------------------------------------------------------------- (6) base types first *)
 
@@ -384,7 +415,7 @@ Proof. vm_compute. reflexivity. Qed.
 (* AttributeValue::size and ::write do not panic on any well-typed value (payloads within their Rust types,
    ids issued by the tables of this write), for every encoding and both build modes *)
 Theorem size_no_panic : forall (dbg : bool) (cx : wcx) (v : aval),
-  av_typed cx v -> av_size dbg (wc_enc cx) v <> Panic.
+  av_typed cx v -> av_size dbg (wc_enc cx) (wc_lpv cx) v <> Panic.
 Proof. exact av_size_no_panic_lemma. Qed.
 
 Theorem write_no_panic : forall (dbg : bool) (cx : wcx) (v : aval),
@@ -397,15 +428,15 @@ Proof. exact av_write_no_panic_lemma. Qed.
 Theorem calc_no_panic : forall (dbg : bool) (cx : wcx) (d : die) (st : cst),
   die_typed cx d -> ids_in_range (die_ids d) st ->
   cs_off st + dsize_ub (wc_enc cx) d < 2 ^ 64 ->
-  calc dbg (wc_enc cx) d st <> Panic /\
-  (forall st', calc dbg (wc_enc cx) d st = Ok st' -> cs_off st' <= cs_off st + dsize_ub (wc_enc cx) d).
+  calc dbg (wc_enc cx) (wc_lpv cx) d st <> Panic /\
+  (forall st', calc dbg (wc_enc cx) (wc_lpv cx) d st = Ok st' -> cs_off st' <= cs_off st + dsize_ub (wc_enc cx) d).
 Proof. exact calc_no_panic_lemma. Qed.
 
 (* DebuggingInformationEntry::write, run with the tables calculate_offsets produced, does not panic either:
    in particular its debug_assert_eq!(offsets.debug_info_offset(self.id), Some(w.offset())) holds at every
    entry (that is offsets_exact), every code lookup is in range, the sibling subtraction does not underflow *)
 Theorem write_tree_no_panic : forall (dbg : bool) (cx : wcx) (d : die) (st st' : cst),
-  calc dbg (wc_enc cx) d st = Ok st' ->
+  calc dbg (wc_enc cx) (wc_lpv cx) d st = Ok st' ->
   agree_on (die_ids d) (wc_entries cx) (cs_entries st') ->
   agree_on (die_ids d) (wc_codes cx) (cs_codes st') ->
   (forall i c, nth_error (wc_codes cx) i = Some c -> c < 2 ^ 64) ->
@@ -416,7 +447,7 @@ Theorem write_tree_no_panic : forall (dbg : bool) (cx : wcx) (d : die) (st st' :
 Proof. exact write_die_no_panic_lemma. Qed.
 
 Example no_panic_ex :
-  let cx := mkWcx ex_enc false 0 0 (cs_entries ex_st) (cs_codes ex_st) None [] [] [] [] in
+  let cx := mkWcx ex_enc false 0 0 (cs_entries ex_st) (cs_codes ex_st) None [] [] [] [] 4 in
   die_typed cx ex_root /\ ids_in_range (die_ids ex_root) ex_st0 /\ cs_off ex_st0 + dsize_ub ex_enc ex_root < 2 ^ 64 /\
   die_expr_ok ex_root.
 Proof.
@@ -429,7 +460,7 @@ Proof.
 Qed.
 
 Check form_size_write_len : forall dbg cx v ops, av_write dbg cx v = Ok ops -> expr_ok v -> ops_len ops < 2 ^ 64 ->
-  av_size dbg (wc_enc cx) v = Ok (ops_len ops).
+  av_size dbg (wc_enc cx) (wc_lpv cx) v = Ok (ops_len ops).
 Check abbrev_dedup : forall tab a code tab' ext, abbrev_add tab a = (code, tab') -> NoDup (tab' ++ ext) ->
   abbrev_add (tab' ++ ext) a = (code, tab' ++ ext).
 Check unencodable_is_error : forall dbg cx v er, av_unencodable cx v = Some er -> av_write dbg cx v = Err er.
